@@ -300,6 +300,16 @@ pub fn dispatch(line: &str) -> String {
         "Vec<SpeedLimitPoint>" => <SpeedPointTag as FileEntry>::call(&req),
         "PowerDistributionControlType" => run::<PowerDistributionControlType>(&req, call_pdct),
         "Locomotive" => run::<Locomotive>(&req, call_loco),
+        "LocomotiveSimulation" => run::<crate::consist::locomotive::loco_sim::LocomotiveSimulation>(&req, |o, f, _a| match f {
+            "LocomotiveSimulation::walk" => unit(o.walk()),
+            "LocomotiveSimulation::step" => unit(o.step()),
+            _ => Err(Unsup(format!("no runner entry for {f}"))),
+        }),
+        "ConsistSimulation" => run::<crate::consist::consist_sim::ConsistSimulation>(&req, |o, f, _a| match f {
+            "ConsistSimulation::walk" => unit(o.walk()),
+            "ConsistSimulation::step" => unit(o.step()),
+            _ => Err(Unsup(format!("no runner entry for {f}"))),
+        }),
         "Consist" => run::<Consist>(&req, call_consist),
         "FuelConverter" => run::<FuelConverter>(&req, call_fc),
         "Generator" => run::<Generator>(&req, call_gen),
